@@ -38,6 +38,28 @@ Theorem kaczmarz_distance_nonincreasing :
 Proof. exact kaczmarz_all. Qed.
 Print Assumptions kaczmarz_distance_nonincreasing.
 
+(* random=True: the blocks are visited in ANY order (every list of operator indices, in particular
+   every permutation numpy can draw, a fresh one per outer iteration), block i always with its own
+   rhs[i] and omega[i]: the distance to any solution still never increases -- per sweep and after
+   every single block step *)
+Theorem kaczmarz_random_order_distance_nonincreasing :
+  forall (X : IPS) (blocks : list (kblock X)) (xs : X),
+  Forall (fun b => bounded X (kW X b) (kA X b) (kM X b) /\ 0 <= kM X b /\ 0 <= kom X b /\ kom X b * kM X b <= 2) blocks ->
+  Forall (fun b => kA X b xs = kb X b) blocks ->
+  forall (orders : list (list nat)) (x : X),
+  nonincr (fun x => nsq (x -' xs)) x
+          (kz_run_orders X (map (fun b => lw_step X (kW X b) vplus smul vplus smul (kA X b) (adj (kA X b)) (kom X b) (kb X b)) blocks) orders x).
+Proof. exact kaczmarz_random_all. Qed.
+Print Assumptions kaczmarz_random_order_distance_nonincreasing.
+Theorem kaczmarz_every_block_step_distance_nonincreasing :
+  forall (X : IPS) (blocks : list (kblock X)) (xs : X),
+  Forall (fun b => bounded X (kW X b) (kA X b) (kM X b) /\ 0 <= kM X b /\ 0 <= kom X b /\ kom X b * kM X b <= 2) blocks ->
+  Forall (fun b => kA X b xs = kb X b) blocks ->
+  forall (i : nat) (x : X),
+  nsq (nth i (map (fun b => lw_step X (kW X b) vplus smul vplus smul (kA X b) (adj (kA X b)) (kom X b) (kb X b)) blocks) (fun y => y) x -' xs)
+  <= nsq (x -' xs).
+Proof. exact kaczmarz_block_step_distance. Qed.
+
 (* ------------------------------------------------------ conjugate gradients *)
 (* energy-norm error <x - xs, A (x - xs)> never increases along the states visited by
    conjugate_gradient (A symmetric positive semi-definite, A xs = b), any budget;
